@@ -36,7 +36,7 @@ def _split(rng, flat):
 
 
 def gen(rng, tier):
-    n = G.budget(500) if tier == 'quick' else 10000
+    n = G.budget(500) if tier == 'quick' else 5000
     for it in range(n):
         k1, k2 = rng.randint(2, 12), rng.randint(2, 12)
         l1, a1 = G.alphabet(rng, k=k1)
@@ -71,7 +71,7 @@ def gen(rng, tier):
             mal = 'method'
         yield {'t1': _split(rng, f1), 't2': _split(rng, f2), 'method': method, 'mal': mal,
                'alpha': a1 + '/' + a2}
-    for _ in range(G.budget(30) if tier == 'quick' else 800):      # narrow integer types, many index-like states
+    for _ in range(G.budget(30) if tier == 'quick' else 300):      # narrow integer types, many index-like states
         k1, k2 = rng.choice([(11, 12), (12, 11), (12, 12), (12, 12), (10, 12)])
         base = rng.choice([0, 1])
         l1, l2 = list(range(base, base + k1)), list(range(base, base + k2))
@@ -81,7 +81,7 @@ def gen(rng, tier):
         f2 = (f2 + l2)[:len(f1)]
         yield {'t1': [f1], 't2': [f2], 'method': rng.choice(['symmetric', 'directed']), 'mal': None, 'alpha': 'index-narrow',
                'dtypes': [rng.choice(['int8', 'uint8', 'int16']), rng.choice(['int8', 'int64'])]}
-    for _ in range(G.budget(20) if tier == 'quick' else 500):      # the SAME StateTraj objects compared repeatedly
+    for _ in range(G.budget(20) if tier == 'quick' else 200):      # the SAME StateTraj objects compared repeatedly
         k1, k2 = rng.randint(2, 5), rng.randint(2, 5)
         l1, _ = G.alphabet(rng, k=k1)
         l2, _ = G.alphabet(rng, k=k2)
